@@ -18,8 +18,17 @@ class Machinery(Exception):
 
 
 def load_known():
+  """Committed known findings: known_findings.json plus known_findings.d/*.json (one file per
+  property, same format).  Never written at run time."""
   with open(KNOWN) as f:
-    return json.load(f)["findings"]
+    out = list(json.load(f)["findings"])
+  d = os.path.join(VERIF, "known_findings.d")
+  if os.path.isdir(d):
+    for fn in sorted(os.listdir(d)):
+      if fn.endswith(".json"):
+        with open(os.path.join(d, fn)) as f:
+          out += json.load(f)["findings"]
+  return out
 
 
 class Run:
